@@ -70,7 +70,7 @@
 		{{- end }}
 
 		{{- if eq .Type.Name "string" }}
-	{{ .VarName }} := {{ if or .FieldPointer $.ViewedResult }}*{{ end }}res{{ if $.ViewedResult }}.Projected{{ end }}{{ if .FieldName }}.{{ .FieldName }}{{ end }}
+	{{ .VarName }} := {{ if isAliased .FieldType }}string({{ end }}{{ if or .FieldPointer $.ViewedResult }}*{{ end }}res{{ if $.ViewedResult }}.Projected{{ end }}{{ if .FieldName }}.{{ .FieldName }}{{ end }}{{ if isAliased .FieldType }}){{ end }}
 		{{- else }}
 			{{- if isAliased .FieldType }}
 	{{ .VarName }}raw := {{ goTypeRef .Type }}({{ if .FieldPointer }}*{{ end }}res{{ if $.ViewedResult }}.Projected{{ end }}{{ if .FieldName }}.{{ .FieldName }}{{ end }})
